@@ -61,6 +61,10 @@ pub struct Shared {
     pub log: RefCell<Vec<Invocation>>,
     pub seq: Cell<u64>,
     pub reent: RefCell<ReentStats>,
+    /// user closures a program defines once and passes to every `Array::op` call of that kind: the same
+    /// `Rc` objects in many nodes of one graph; node identity and coefficients travel in an extra,
+    /// untracked operand (see `custom_op`)
+    pub closures: RefCell<std::collections::BTreeMap<String, (ForwardOp, BackwardOp)>>,
 }
 
 impl Shared {
@@ -71,6 +75,7 @@ impl Shared {
             log: RefCell::new(Vec::new()),
             seq: Cell::new(0),
             reent: RefCell::new(ReentStats::default()),
+            closures: RefCell::new(std::collections::BTreeMap::new()),
         })
     }
     pub fn tick(&self) -> u64 {
@@ -142,10 +147,25 @@ fn run_script(sh: &Shared, script: &[Reent], children: &[Array], delta: &Array) 
 }
 
 /// Builds the forward and derivative closures of a custom operation. `uid` is the reference node id.
-pub fn custom_op(sh: &Rc<Shared>, uid: usize, kind: &CustomKind, coef: &[f64], script: &[Reent]) -> (ForwardOp, BackwardOp) {
+/// `tagged`: the closure objects are shared by every node of this kind and script in the world; the
+/// node's identity and coefficients are read from the last operand, an untracked array
+/// `[uid, coef...]` the caller appends (hyper-parameters handed over as an operand).
+pub fn custom_op(sh: &Rc<Shared>, uid: usize, kind: &CustomKind, coef: &[f64], script: &[Reent], tagged: bool) -> (ForwardOp, BackwardOp) {
+    let key = format!("{:?}|{:?}", kind, script);
+    if tagged {
+        if let Some((f, b)) = sh.closures.borrow().get(&key) {
+            return (f.clone(), b.clone());
+        }
+    }
     let kind_f = kind.clone();
-    let coef_f: Vec<f64> = coef.to_vec();
+    let coef_fixed: Vec<f64> = coef.to_vec();
     let fwd: ForwardOp = Rc::new(move |x: &[&Array]| {
+        let (x, coef_f): (&[&Array], Vec<Float>) = if tagged {
+            let t = x[x.len() - 1].values();
+            (&x[..x.len() - 1], t[1..].to_vec())
+        } else {
+            (x, coef_fixed.iter().map(|c| *c as Float).collect())
+        };
         if kind_f == CustomKind::Prod2Crate {
             // a forward closure written with the library's own (tracked) arithmetic
             return x[0] * x[1];
@@ -156,7 +176,7 @@ pub fn custom_op(sh: &Rc<Shared>, uid: usize, kind: &CustomKind, coef: &[f64], s
                 .map(|i| {
                     let mut s: Float = 0.0;
                     for (j, a) in x.iter().enumerate() {
-                        s += a.values()[i] * (coef_f[j] as Float);
+                        s += a.values()[i] * coef_f[j];
                     }
                     s
                 })
@@ -172,6 +192,13 @@ pub fn custom_op(sh: &Rc<Shared>, uid: usize, kind: &CustomKind, coef: &[f64], s
     let coef_b: Vec<f64> = coef.to_vec();
     let script_b: Vec<Reent> = script.to_vec();
     let bwd: BackwardOp = Rc::new(move |children: &[Array], tracked: &[bool], delta: &Array| {
+        let (uid, children, tracked, coef_b): (usize, &[Array], &[bool], Vec<Float>) = if tagged {
+            let n = children.len() - 1;
+            let t = children[n].values();
+            (t[0] as usize, &children[..n], &tracked[..n], t[1..].to_vec())
+        } else {
+            (uid, children, tracked, coef_b.iter().map(|c| *c as Float).collect())
+        };
         let sh = weak.upgrade();
         let seq = sh.as_ref().map(|s| s.tick()).unwrap_or(0);
         if let Some(s) = &sh {
@@ -183,7 +210,7 @@ pub fn custom_op(sh: &Rc<Shared>, uid: usize, kind: &CustomKind, coef: &[f64], s
             CustomKind::Lin => (0..children.len())
                 .map(|i| {
                     if tracked[i] {
-                        let k = coef_b[i] as Float;
+                        let k = coef_b[i];
                         Some(Array::from((dims.clone(), dv.iter().map(|d| d * k).collect::<Vec<Float>>())))
                     } else {
                         None
@@ -227,8 +254,15 @@ pub fn custom_op(sh: &Rc<Shared>, uid: usize, kind: &CustomKind, coef: &[f64], s
                 children: children.iter().map(|c| (c.dimensions().to_vec(), bits(c.values()))).collect(),
             });
         }
+        let mut ret = ret;
+        if tagged {
+            ret.push(None);
+        }
         ret
     });
+    if tagged {
+        sh.closures.borrow_mut().insert(key, (fwd.clone(), bwd.clone()));
+    }
     (fwd, bwd)
 }
 
@@ -254,7 +288,9 @@ pub fn apply_op(sh: &Rc<Shared>, uid: usize, op: &Op, a: &[&Array], any_tracked:
         Op::Matmul { ta, tb } => Array::matmul((a[0], *ta), (a[1], *tb), a.get(2).copied()),
         Op::Conv { sr, sc } => a[0].conv(a[1], (*sr, *sc)),
         Op::Activation { act, detach } => {
-            let c = a[0].clone();
+            // an untracked operand is handed over as a fresh reshaped view every other time (a handle
+            // nobody else holds, on storage somebody else does: C08 against "unshared, so reusable")
+            let c = if !any_tracked && uid % 2 == 1 { a[0].reshape(a[0].dimensions().to_vec()) } else { a[0].clone() };
             let c = if *detach { c.untracked() } else { c };
             match act {
                 crate::event::Act::None => c,
@@ -276,11 +312,22 @@ pub fn apply_op(sh: &Rc<Shared>, uid: usize, op: &Op, a: &[&Array], any_tracked:
             Array::op(a, f, None)
         }
         Op::Custom { kind, coef, script } => {
-            let (f, b) = custom_op(sh, uid, kind, coef, script);
+            // two nodes out of three use closure objects defined once for the whole program
+            let tagged = uid % 3 != 0;
+            let (f, b) = custom_op(sh, uid, kind, coef, script, tagged);
             // the user always supplies a derivative closure, as in the documented example; whether a graph
             // is recorded for untracked operands is the library's decision (C09)
             let _ = any_tracked;
-            Array::op(a, f, Some(b))
+            if tagged {
+                let mut tv: Vec<Float> = vec![uid as Float];
+                tv.extend(coef.iter().map(|c| *c as Float));
+                let tag = Array::from((vec![tv.len()], tv));
+                let mut v: Vec<&Array> = a.to_vec();
+                v.push(&tag);
+                Array::op(&v, f, Some(b))
+            } else {
+                Array::op(a, f, Some(b))
+            }
         }
     }
 }
